@@ -423,14 +423,18 @@ theorem phase_inter (t now life : Nat) (root : Pair) (s : Store) (fr : Nat) (h :
     simp only [hrc, Pair.crt, Option.some.injEq, Blob.cert.injEq] at h2
     exact ⟨⟨hinv, hrc, hrk, hsg, hkid⟩, by simp [hic, hb, Pair.crt], by simp [hik, Pair.key], h2.1.symm, h4⟩
 
+/-- what a start-up that returns has in hand and in store as far as the root goes -/
+def RootHeld (t : Nat) (m : Mem) (s : Store) : Prop :=
+  InvAt t s ∧ s .rootCrt = some m.root.crt ∧ s .rootKey = some m.root.key
+
 theorem phase_renew (c : Cfg) (m : Mem) (s : Store) (fr : Nat) (h : ProvOK c.now m s) :
-    wp (InvAt c.now) (fun s' _ => InvAt c.now s') (renew .keyFirst c m) (fun _ s' _ => InvAt c.now s') s fr := by
+    wp (InvAt c.now) (fun s' _ => InvAt c.now s') (renew .keyFirst c m) (fun m' s' _ => RootHeld c.now m' s') s fr := by
   obtain ⟨⟨hinv, hrc, hrk, hsg, hkid⟩, hic, hik, hisg, _⟩ := h
   unfold renew
   split
   · rename_i hdue
     rw [wp_orElse, wp_bind]
-    apply wp_loadOrGenRoot_present .keyFirst c.now s fr m.root.crt hrc hinv hinv
+    apply wp_loadOrGenRoot_present .keyFirst c.now s fr m.root.crt hrc hinv ⟨hinv, hrc, hrk⟩
     intro p sg ra id hb hrk'
     rw [hrk, Pair.key] at hrk'
     cases hrk'
@@ -447,13 +451,17 @@ theorem phase_renew (c : Cfg) (m : Mem) (s : Store) (fr : Nat) (h : ProvOK c.now
     have h2 := h1.set_intCrt fr m.root.pub m.root.renewAt (c.now + c.life) (by simp [hrc']) (by simp)
     simp only [Pair.key, Pair.crt, wp]
     rw [hkid]
-    exact ⟨hinv, h1, hinv, h1, h2, h2, h2⟩
-  · exact hinv
+    refine ⟨hinv, h1, ⟨hinv, hrc, hrk⟩, ⟨h1, ?_, ?_⟩, h2, ⟨h2, ?_, ?_⟩, ⟨h2, ?_, ?_⟩⟩
+    all_goals first
+      | (simp; exact hrc)
+      | (simp; exact hrk)
+  · exact ⟨hinv, hrc, hrk⟩
 
 /-- every exit of a start-up — return, error, death at any storage operation before or after
-    its effect — leaves a store that satisfies the invariant again -/
+    its effect — leaves a store that satisfies the invariant again; if it returns, the root it
+    holds is the stored one -/
 theorem wp_startup_inv (c : Cfg) (s : Store) (fr : Nat) (h : InvAt c.now s) :
-    wp (InvAt c.now) (fun s' _ => InvAt c.now s') (startup .keyFirst c) (fun _ s' _ => InvAt c.now s') s fr := by
+    wp (InvAt c.now) (fun s' _ => InvAt c.now s') (startup .keyFirst c) (fun m s' _ => RootHeld c.now m s') s fr := by
   unfold startup provision
   rw [wp_bind, wp_bind]
   refine wp_mono (fun _ _ h => h) ?_ _ _ _ (phase_root c.now c.now s fr h)
@@ -549,5 +557,247 @@ theorem wpn_startup (c : Cfg) (s : Store) (fr : Nat) (h : InvAt c.now s) :
   refine wpn_mono ?_ _ _ _ (phaseN_renew c ⟨root, inter⟩ s2 fr2 hprov)
   intro m s3 _ h3
   exact ⟨h3.1, h3.2.1, h3.2.2.1⟩
+
+end CaddyModel.C14
+
+namespace CaddyModel.C14
+
+/-! ### frames: which keys a function can write at all (any order, any store) -/
+
+section frames
+variable {F : Store → Prop}
+
+theorem frame_storePair (ord : Order) (kK kC : Key) (p : Pair) (e : Err) (s : Store) (fr : Nat)
+    (hK : ∀ s b, F s → F (s.set kK b)) (hC : ∀ s b, F s → F (s.set kC b)) (h : F s) :
+    wp F (fun s' _ => F s') (storePair ord kK kC p e) (fun _ s' _ => F s') s fr := by
+  cases ord with
+  | keyFirst =>
+    simp only [storePair, wp]
+    exact ⟨h, hK _ _ h, h, hK _ _ h, hK _ _ h, hC _ _ (hK _ _ h), hK _ _ h, hC _ _ (hK _ _ h), hC _ _ (hK _ _ h)⟩
+  | certFirst =>
+    simp only [storePair, wp]
+    exact ⟨h, hC _ _ h, h, hC _ _ h, hC _ _ h, hK _ _ (hC _ _ h), hC _ _ h, hK _ _ (hC _ _ h), hK _ _ (hC _ _ h)⟩
+
+theorem frame_genInt (ord : Order) (now life : Nat) (root : Pair) (e : Err) (s : Store) (fr : Nat)
+    (hK : ∀ s b, F s → F (s.set .intKey b)) (hC : ∀ s b, F s → F (s.set .intCrt b)) (h : F s) :
+    wp F (fun s' _ => F s') (genInt ord now life root e) (fun _ s' _ => F s') s fr := by
+  unfold genInt
+  simp only [wp]
+  split
+  · exact frame_storePair ord _ _ _ _ s (fr + 1) hK hC h
+  · exact h
+
+theorem frame_loadOrGenInt (ord : Order) (now life : Nat) (root : Pair) (s : Store) (fr : Nat)
+    (hK : ∀ s b, F s → F (s.set .intKey b)) (hC : ∀ s b, F s → F (s.set .intCrt b)) (h : F s) :
+    wp F (fun s' _ => F s') (loadOrGenInt ord now life root) (fun _ s' _ => F s') s fr := by
+  cases hic : s .intCrt with
+  | none => exact wp_loadOrGenInt_absent ord now life root s fr hic h h (frame_genInt ord now life root _ s fr hK hC h)
+  | some b => exact wp_loadOrGenInt_present ord now life root s fr b hic h h (fun _ _ _ _ _ _ => h)
+
+theorem frame_loadOrGenRoot (ord : Order) (now : Nat) (s : Store) (fr : Nat)
+    (hK : ∀ s b, F s → F (s.set .rootKey b)) (hC : ∀ s b, F s → F (s.set .rootCrt b)) (h : F s) :
+    wp F (fun s' _ => F s') (loadOrGenRoot ord now) (fun _ s' _ => F s') s fr := by
+  cases hrc : s .rootCrt with
+  | none =>
+    unfold loadOrGenRoot
+    simp only [wp, hrc, genRoot]
+    exact ⟨h, h, frame_storePair ord _ _ _ _ s (fr + 1) hK hC h⟩
+  | some b => exact wp_loadOrGenRoot_present ord now s fr b hrc h h (fun _ _ _ _ _ _ => h)
+
+end frames
+
+/-- a stored root certificate is never touched again, nor is the key stored next to it; a
+    start-up that returns uses exactly that certificate -/
+theorem wp_startup_root_frozen (ord : Order) (c : Cfg) (s : Store) (fr : Nat) (b : Blob) (h : s .rootCrt = some b) :
+    wp (fun s' => s' .rootCrt = some b ∧ s' .rootKey = s .rootKey)
+       (fun s' _ => s' .rootCrt = some b ∧ s' .rootKey = s .rootKey)
+       (startup ord c)
+       (fun m s' _ => (s' .rootCrt = some b ∧ s' .rootKey = s .rootKey) ∧ m.root.crt = b) s fr := by
+  have hK : ∀ (s' : Store) (b' : Blob), (s' .rootCrt = some b ∧ s' .rootKey = s .rootKey) →
+      ((s'.set .intKey b') .rootCrt = some b ∧ (s'.set .intKey b') .rootKey = s .rootKey) := by
+    intro s' b' hh; simpa using hh
+  have hC : ∀ (s' : Store) (b' : Blob), (s' .rootCrt = some b ∧ s' .rootKey = s .rootKey) →
+      ((s'.set .intCrt b') .rootCrt = some b ∧ (s'.set .intCrt b') .rootKey = s .rootKey) := by
+    intro s' b' hh; simpa using hh
+  unfold startup provision
+  rw [wp_bind, wp_bind]
+  apply wp_loadOrGenRoot_present ord c.now s fr b h ⟨h, rfl⟩ ⟨h, rfl⟩
+  intro p sg ra id hb _
+  rw [wp_bind]
+  refine wp_mono (fun _ _ h => h) ?_ _ _ _ (frame_loadOrGenInt ord c.now c.life _ s fr hK hC ⟨h, rfl⟩)
+  intro inter s2 fr2 h2
+  show wp _ _ (renew ord c ⟨⟨p, sg, ra, id⟩, inter⟩) _ s2 fr2
+  unfold renew
+  split
+  · rw [wp_orElse, wp_bind]
+    apply wp_loadOrGenRoot_present ord c.now s2 fr2 b h2.1 h2 ⟨h2, by simp [Pair.crt, hb]⟩
+    intro p' sg' ra' id' _ _
+    rw [wp_bind]
+    refine wp_mono ?_ ?_ _ _ _ (frame_genInt ord c.now c.life _ _ s2 fr2 hK hC h2)
+    · intro s3 _ h3; exact ⟨h3, by simp [Pair.crt, hb]⟩
+    · intro inter' s3 _ h3; exact ⟨h3, by simp [Pair.crt, hb]⟩
+  · exact ⟨h2, by simp [Pair.crt, hb]⟩
+
+/-- a stored intermediate certificate that is not inside its renewal window is never touched,
+    nor is the key stored next to it; a start-up that returns uses exactly that certificate -/
+theorem wp_startup_inter_frozen (ord : Order) (c : Cfg) (s : Store) (fr : Nat) (i r ra : Nat)
+    (h : s .intCrt = some (.cert i r ra)) (hnd : c.now < ra) :
+    wp (fun s' => s' .intCrt = some (.cert i r ra) ∧ s' .intKey = s .intKey)
+       (fun s' _ => s' .intCrt = some (.cert i r ra) ∧ s' .intKey = s .intKey)
+       (startup ord c)
+       (fun m s' _ => (s' .intCrt = some (.cert i r ra) ∧ s' .intKey = s .intKey) ∧ m.inter.crt = .cert i r ra ∧
+          s' .intKey = some m.inter.key) s fr := by
+  have hK : ∀ (s' : Store) (b' : Blob), (s' .intCrt = some (.cert i r ra) ∧ s' .intKey = s .intKey) →
+      ((s'.set .rootKey b') .intCrt = some (.cert i r ra) ∧ (s'.set .rootKey b') .intKey = s .intKey) := by
+    intro s' b' hh; simpa using hh
+  have hC : ∀ (s' : Store) (b' : Blob), (s' .intCrt = some (.cert i r ra) ∧ s' .intKey = s .intKey) →
+      ((s'.set .rootCrt b') .intCrt = some (.cert i r ra) ∧ (s'.set .rootCrt b') .intKey = s .intKey) := by
+    intro s' b' hh; simpa using hh
+  unfold startup provision
+  rw [wp_bind, wp_bind]
+  refine wp_mono (fun _ _ h => h) ?_ _ _ _ (frame_loadOrGenRoot ord c.now s fr hK hC ⟨h, rfl⟩)
+  intro root s1 fr1 h1
+  rw [wp_bind]
+  apply wp_loadOrGenInt_present ord c.now c.life root s1 fr1 _ h1.1 h1 h1
+  intro p sg ra' id hb hik
+  cases hb
+  show wp _ _ (renew ord c ⟨root, ⟨i, r, ra, id⟩⟩) _ s1 fr1
+  unfold renew
+  have : due ⟨i, r, ra, id⟩ c.now = false := by simp [due]; omega
+  simp only [this]
+  exact ⟨h1, rfl, hik⟩
+
+end CaddyModel.C14
+
+namespace CaddyModel.C14
+
+/-! ### autosave -/
+
+@[simp] theorem FS.set_tmp_path (fs : FS) (c : Option Bytes) : (fs.set .tmp c).path = fs.path := rfl
+@[simp] theorem FS.set_path_path (fs : FS) (c : Option Bytes) : (fs.set .path c).path = c := rfl
+@[simp] theorem FS.set_tmp_tmp (fs : FS) (c : Option Bytes) : (fs.set .tmp c).tmp = c := rfl
+@[simp] theorem FS.set_path_tmp (fs : FS) (c : Option Bytes) : (fs.set .path c).tmp = fs.tmp := rfl
+@[simp] theorem FS.get_tmp (fs : FS) : fs.get .tmp = fs.tmp := rfl
+@[simp] theorem FS.get_path (fs : FS) : fs.get .path = fs.path := rfl
+
+/-- the autosave file is what it was, or exactly the new config -/
+def PathIn (fs0 : FS) (cfg : Bytes) (x : FS) : Prop := x.path = fs0.path ∨ x.path = some cfg
+
+/-- temp-file-then-rename: at every instant of the three operations — whichever of them is
+    killed, fails, or is torn after any number of bytes — the autosave file is the old one or
+    the complete new one -/
+theorem ops_tmpRename (ft : Option FFault) (fs : FS) (cfg : Bytes) :
+    (∀ x ∈ (runOps ft (autosaveOps .tmpRename cfg) 0 fs).seen, PathIn fs cfg x) ∧
+    PathIn fs cfg (runOps ft (autosaveOps .tmpRename cfg) 0 fs).fs := by
+  cases ft with
+  | none =>
+    simp [autosaveOps, runOps, ffires, FOp.apply, FOp.during, PathIn]
+    rintro a (⟨n, _, rfl⟩ | rfl | rfl) <;> simp
+  | some f =>
+    obtain ⟨idx, mode⟩ := f
+    by_cases h1 : idx = 1
+    · subst h1
+      cases mode <;> simp [autosaveOps, runOps, ffires, FOp.apply, FOp.during, FOp.torn, PathIn]
+    · by_cases h2 : idx = 2
+      · subst h2
+        cases mode <;> simp [autosaveOps, runOps, ffires, FOp.apply, FOp.during, FOp.torn, PathIn] <;>
+          (rintro a (⟨n, _, rfl⟩ | rfl) <;> simp)
+      · by_cases h3 : idx = 3
+        · subst h3
+          cases mode <;> simp [autosaveOps, runOps, ffires, FOp.apply, FOp.during, FOp.torn, PathIn] <;>
+            first
+              | (rintro a (⟨n, _, rfl⟩ | rfl | rfl) <;> simp)
+              | (rintro a (⟨n, _, rfl⟩ | rfl) <;> simp)
+        · simp [autosaveOps, runOps, ffires, FOp.apply, FOp.during, PathIn, h1, h2, h3]
+          rintro a (⟨n, _, rfl⟩ | rfl | rfl) <;> simp
+
+/-- without a fault the three operations complete and the file is the new config -/
+theorem ops_tmpRename_nofault (fs : FS) (cfg : Bytes) :
+    (runOps none (autosaveOps .tmpRename cfg) 0 fs).fs.path = some cfg ∧
+    (runOps none (autosaveOps .tmpRename cfg) 0 fs).status = .done ∧
+    (runOps none (autosaveOps .tmpRename cfg) 0 fs).log = autosaveOps .tmpRename cfg := by
+  simp [autosaveOps, runOps, ffires, FOp.apply]
+
+/-- the attempted operations are a prefix of the autosave program -/
+theorem runOps_log_prefix (ft : Option FFault) : ∀ (ops : List FOp) (i : Nat) (fs : FS),
+    (runOps ft ops i fs).log <+: ops := by
+  intro ops
+  induction ops with
+  | nil => intro i fs; simp [runOps]
+  | cons op rest ih =>
+    intro i fs
+    unfold runOps
+    split
+    · exact List.prefix_cons_inj op |>.mpr (ih (i + 1) (op.apply fs))
+    all_goals exact List.prefix_cons_inj op |>.mpr (List.nil_prefix)
+
+theorem Good.mono {A B : List Bytes} {fs : FS} (h : Good A fs) (hs : ∀ c ∈ A, c ∈ B) : Good B fs := by
+  rcases h with h | ⟨c, hc, h⟩
+  · exact Or.inl h
+  · exact Or.inr ⟨c, hs c hc, h⟩
+
+theorem Good.of_pathIn {A : List Bytes} {fs0 x : FS} {cfg : Bytes} (h0 : Good A fs0) (h : PathIn fs0 cfg x) :
+    Good (A ++ [cfg]) x := by
+  rcases h with h | h
+  · rcases h0 with h0 | ⟨c, hc, h0⟩
+    · exact Or.inl (h.trans h0)
+    · exact Or.inr ⟨c, by simp [hc], h.trans h0⟩
+  · exact Or.inr ⟨cfg, by simp, h⟩
+
+/-- the configs a load adds to the accepted ones -/
+def acceptedBy (l : Load) (a : AState) : List Bytes :=
+  if !sameCfg l a && l.accepted then [l.cfg] else []
+
+/-- one load: every instant and the final state hold an accepted config -/
+theorem loadStep_good (l : Load) (ft : Option FFault) (a : AState) (A : List Bytes) (h : Good A a.fs) :
+    (∀ x ∈ (loadStep .tmpRename l ft a).seen, Good (A ++ acceptedBy l a) x) ∧
+    Good (A ++ acceptedBy l a) (loadStep .tmpRename l ft a).st.fs := by
+  unfold loadStep acceptedBy
+  by_cases hs : sameCfg l a = true
+  · simp [hs, h]
+  · simp only [hs, Bool.false_eq_true, if_false, Bool.not_false, Bool.true_and]
+    by_cases hacc : l.accepted = true
+    · simp only [hacc, Bool.not_true, Bool.false_eq_true, if_false, if_true]
+      by_cases hp : l.persists = true
+      · simp only [hp, if_true]
+        have ho := ops_tmpRename ft a.fs l.cfg
+        split <;> exact ⟨fun x hx => Good.of_pathIn h (ho.1 x hx), Good.of_pathIn h ho.2⟩
+      · simp only [hp, Bool.false_eq_true, if_false]
+        exact ⟨fun x hx => by simp at hx; subst hx; exact h.mono (fun c hc => by simp [hc]),
+               h.mono (fun c hc => by simp [hc])⟩
+    · simp [hacc, h]
+
+end CaddyModel.C14
+
+namespace CaddyModel.C14
+
+/-! ### histories -/
+
+theorem Res.Holds.store_all {Q : α → Store → Nat → Prop} {E : Store → Nat → Prop} {C : Store → Prop}
+    {P : Store → Prop} {r : Res α} (h : r.Holds Q E C)
+    (hQ : ∀ a s fr, Q a s fr → P s) (hE : ∀ s fr, E s fr → P s) (hC : ∀ s, C s → P s) : P r.sys.store := by
+  cases r with
+  | ok a y => exact hQ _ _ _ h
+  | err e y => exact hE _ _ h
+  | crash y => exact hC _ h
+
+/-- a root certificate that is stored stays stored, with the key next to it (or with no key
+    next to it), through any further history of start-ups, interrupted or not — in either
+    write order -/
+theorem root_frozen (ord : Order) : ∀ (evs : List Event) (d : Disk) (b : Blob), d.store .rootCrt = some b →
+    (runHist ord evs d).store .rootCrt = some b ∧
+    (runHist ord evs d).store .rootKey = d.store .rootKey
+  | [], _, _, h => ⟨h, rfl⟩
+  | e :: es, d, b, h => by
+    have hs := wp_sound e.fault (startup ord e.cfg) _ (boot d)
+      (wp_startup_root_frozen ord e.cfg d.store d.fresh b h)
+    have h1 : (e.after ord d).store .rootCrt = some b ∧ (e.after ord d).store .rootKey = d.store .rootKey :=
+      hs.store_all (fun _ _ _ h => h.1) (fun _ _ h => h) (fun _ h => h)
+    have ih := root_frozen ord es (e.after ord d) b h1.1
+    exact ⟨ih.1, ih.2.trans h1.2⟩
+
+/-- a load event for examples and witnesses -/
+def exLoad (c : Bytes) (persist accepted : Bool) : Load :=
+  { cfg := c, force := false, accepted := accepted, nonNil := true, persistCfg := persist, allowPersist := true }
 
 end CaddyModel.C14
